@@ -237,6 +237,12 @@ class Gen:
             for _ in range(self.rng.randint(1, 3)):
                 # distinct condition OBJECTS (the engine keys terms by condition: known finding F1)
                 cnd = self.fresh(lambda: self.boolean(d - 2))
+                r = self.rng.random()
+                if r < 0.15:
+                    # a truth value that is not 0/1: a term is taken when its condition is NON-ZERO, it is not weighted by it
+                    cnd = self.node(['Num'] + self.rng.choice([[1, 1], [-1, 0], [1, -1], [3, 0]]))
+                elif r < 0.3:
+                    cnd = self.node(['Bin', 'Times'], [self.node(['Num'] + self.rng.choice([[1, 1], [-1, 0], [3, -1]])), cnd], 'real')
                 ks += [cnd, self.real(d - 1)]
             return self.node(['CondSum'], ks, 'real')
         if lt(0.06) and self.ok('Elem'):
